@@ -522,6 +522,10 @@ def run(ctx):
         else:
             r4.ok("letter-map", "%d rows, %d distinct table names, all keys of dictionary.json" % (rows, len(names)))
     classes.check_classes(r4, prog, ["is_vowel", "is_kar"], common.fn_line)
+    # the suffix / dictionary accessors are pure look-ups of their argument (no shortcut in front of the table)
+    nacc8 = common.pure_table_accessors(r4, prog, "data::Data")
+    if nacc8 < 2:
+        r4.undecidable("lookup", "expected at least the suffix and the dictionary-table accessors of Data, found %d" % nacc8)
     r4.floor(3, "letter map + two classes")
 
 
